@@ -10,13 +10,9 @@ spec   = F&O result with the decimal context (28 digits, half-even) applied to x
 specI  = for xs:float-typed operations: the F&O result computed with the rounding `implR` (binary64 + clamp)
 flags (trigger predicates computed from the input only):
   F06c  xs:float involved and an operand or the exact result is not a binary32 value kept by `Float`
-  F06t  div/mod special-value branch whose result is typed xs:double / left unpromoted
-  F06x  XPath 1.0: finite mod infinite gives NaN
-  F06p  fn:round / round-half-to-even leave the 28-digit decimal context
+  F06p  fn:round / round-half-to-even leave the 2000-digit local decimal context
   F06v  XPath 1.0: integer/decimal literals computed exactly, value differs from IEEE arithmetic
-  F06s  XPath 1.0: string→number conversion differs from number() (exponent, '+', INF, Unicode space)
   idef  idiv/mod on decimals whose quotient has more than 28 digits (no spec comparison)
-  big   xs:double idiv with |quotient| ≥ 2^51 (Python's float floor division is not exact there)
   fhyp  xs:float-typed operation inside the hypotheses of float_ops_eq_spec_up_to_rounding: impl must equal specI
   ovf   an integer operand beyond the xs:double range meets a float (FOAR0002 or ±INF both conform: no spec comparison)
 The model is run with the concrete round-to-nearest-even `FOArith.ieee` for `R`.
@@ -112,9 +108,7 @@ def answer10 (R : Rounding) (fs : List (String × String)) : String :=
     | some op, some b =>
       let m := model10Bin R op a b
       let s := spec10Bin R op (absOpnd a) (absOpnd b)
-      let fl := flagsStr [
-        (trigF06v_bin R op a b, "F06v"), (trigF06s R a || trigF06s R b, "F06s"),
-        (trigF06x R .v10 op (conv10 R a) (conv10 R b), "F06x")]
+      let fl := flagsStr [(trigF06v_bin R op a b, "F06v")]
       s!"model={showN (m.map absNum)} spec={showN s} specI=_ flags={fl} mraw={showRes (m.map absNum)}"
     | some _, none => "bad-b"
     | none, _ =>
@@ -123,8 +117,7 @@ def answer10 (R : Rounding) (fs : List (String × String)) : String :=
       | some op =>
         let m := model10Un R op a
         let s := spec10Un R op (absOpnd a)
-        let fl := flagsStr [(trigF06v_un R op a, "F06v"), (trigF06s R a, "F06s"),
-          (trigF06p op (toDbl10 R (conv10 R a)), "F06p")]
+        let fl := flagsStr [(trigF06v_un R op a, "F06v"), (trigF06p op (toDbl10 R (conv10 R a)), "F06p")]
         s!"model={showN (.ok (absNum m))} spec={showN (.ok s)} specI=_ flags={fl} mraw={showX (absNum m)}"
 
 def answer (line : String) : String :=
@@ -145,8 +138,7 @@ def answer (line : String) : String :=
         let s := (specBin R op (absNum a) (absNum b)).map ctxDec
         let si := if floatTyped a b then showRes ((specBin (implR R) op (absNum a) (absNum b)).map clampX) else "_"
         let fl := flagsStr [
-          (trigF06c_bin op a b, "F06c"), (trigF06t R v op a b, "F06t"), (trigF06x R v op a b, "F06x"),
-          (trigQuot28 op a b, "idef"), (trigBig R op a b, "big"), (trigOvf R a b, "ovf"),
+          (trigF06c_bin op a b, "F06c"), (trigQuot28 op a b, "idef"), (trigOvf R a b, "ovf"),
           (floatTyped a b && floatHyp R op a b, "fhyp")]
         s!"model={showRes (m.map absNum)} spec={showRes s} specI={si} flags={fl} mraw={showRes (m.map absNum)}"
       | some _, none => "bad-b"
